@@ -135,10 +135,48 @@ def refill_trace(rng):
     return refill_from(cfgp, data)
 
 
+def longdouble_refill(rng):
+    """extended-precision samples (np.longdouble; 64-bit mantissa on x86): quarter steps plus multiples of 2^-62, so that the midpoint of a cell
+    is typically NOT a float64 value and points sit between it and its float64 rounding.  Rows are kept as [quarters, offset] pairs (exact in JSON)."""
+    d = rng.randint(1, 2)
+    n = rng.randint(4, 40)
+    top = 4          # values in [0, 1 + 2^-59]: neighbouring grid values are at least two units in the last place apart, every midpoint is a longdouble
+    data = [[[rng.randint(0, top), rng.randint(-8, 8)] for _ in range(d)] for _ in range(n)]
+    data[0] = [[0, 0] for _ in range(d)]
+    data[1] = [[top, 8] for _ in range(d)]          # range [0, top/4 + 2^-59]: midpoint top/8 + 2^-60
+    for i in range(2, min(n, 6)):
+        data[i] = [[top // 2, rng.choice([1, 2, 3, 5, 6, 7])] for _ in range(d)]
+    cfgp = {"ub": rng.choice([1, 2, 3]), "lbnum": rng.choice([0, 1]), "lbden": rng.choice([8, 16]), "ld": True}
+    return refill_from(cfgp, data)
+
+
+def adjacent_refill(rng):
+    """float64 samples holding values ONE unit in the last place apart (a + (b - a) / 2 then rounds to a or to b): build still ends, files
+    every point in one leaf and the same rows filed again reproduce the counts.  Rows are kept as [base, ulps] pairs (finding F26)."""
+    d = rng.randint(1, 2)
+    bases = [rng.choice([1.0, 0.1, 3.0, -2.5, 1e6, 1e-3]) for _ in range(d)]
+    n = rng.randint(2, 12)
+    data = [[[bases[c], rng.randint(0, 3)] for c in range(d)] for _ in range(n)]
+    data[0] = [[bases[c], 1] for c in range(d)]
+    data[1] = [[bases[c], 2] for c in range(d)]
+    cfgp = {"ub": rng.choice([1, 1, 2]), "lbnum": 0, "lbden": 4, "ulps": True}
+    return refill_from(cfgp, data)
+
+
 def refill_from(cfgp, data):
     from menelaus.partitioners import KDQTreePartitioner
     part = KDQTreePartitioner(count_ubound=cfgp["ub"], cutpoint_proportion_lbound=cfgp["lbnum"] / cfgp["lbden"])
-    a = np.array(data, dtype=float)
+    if cfgp.get("ld"):
+        LD = np.longdouble
+        a = np.array([[LD(q) / LD(4) + LD(o) * LD(2) ** -62 for q, o in row] for row in data], dtype=LD)
+    elif cfgp.get("ulps"):
+        def up(v, k):
+            for _ in range(k):
+                v = np.nextafter(v, np.inf)
+            return v
+        a = np.array([[up(np.float64(b), k) for b, k in row] for row in data], dtype=float)
+    else:
+        a = np.array(data, dtype=float)
     part.build(a)
     part.fill(a.copy(), tree_id="a", reset=True)
     e = {"op": "refill", "cb": _counts(part.leaf_counts("build")), "cf": _counts(part.leaf_counts("a")),
